@@ -35,7 +35,8 @@ def run(ctx):
         correspond_logger(ctx, traces)
         correspond_subs(ctx, subs)
         replay_model_witnesses(ctx, impl)
-    if not ok and len(ctx.failures) == before:
+    if not ok:
+        # reported even when a failing input was found as well: a finding listed as known must not hide a broken proof
         ctx.fail("proof-broken", "theorem closure props/C18.vo no longer builds against the regenerated gen/LogBufGen.v: "
                  + log[-2500:], replay=dict(log=log[-6000:]), has_input=False)
 
@@ -43,7 +44,7 @@ def run(ctx):
 # ====================================================================== logger histories
 FACS = [0, 2, 3, 4]
 LVLS = [5, 10, 20, 20, 20, 23, 30, 35, 40]
-SHAPES = ["plain", "plain", "format", "format-missing", "message-kw", "posargs"]
+SHAPES = ["plain", "plain", "format", "format-missing", "message-kw", "posargs", "posargs2"]
 
 
 def gen_ops(rng, impl, long_=False):
@@ -137,7 +138,7 @@ def run_trace(ctx, impl, cfg, ops, name="t", judge=True):
                         "logged by op #%d %r" % (k, op), step=k)
             flags.append((okflag, reprok))
             if op[0] == "msg":
-                nat[op[6]] = "posargs" if op[5] == "posargs" else (impl.native(op[4]) or op[5] in ("plain", "message-kw"))
+                nat[op[6]] = "raw" if impl.bad_kind(op[4]) else "posargs" if op[5].startswith("posargs") else (impl.native(op[4]) or op[5] in ("plain", "message-kw"))
             # ---- oracle: never raises, numbers strictly increase
             if exc is not None:
                 bad("oracle/msg-raises", "log.msg raised %r for op #%d %r" % (exc, k, op), step=k)
@@ -166,7 +167,9 @@ def run_trace(ctx, impl, cfg, ops, name="t", judge=True):
                     hit_limit = True
             # ---- expected incidents
             if qual and (ir0 is None or stuck0):
-                trig = [ev for ev in new if isinstance(ev.get("level"), int) and ev["level"] >= flog.WEIRD]
+                # an event whose own buffer has a negative limit raises IndexError while trimming, before the qualifier
+                trig = [ev for ev in new if isinstance(ev.get("level"), int) and ev["level"] >= flog.WEIRD
+                        and L.buffer_sizes.get(ev.get("facility"), {}).get(ev["level"], L.DEFAULT_SIZELIMIT) >= 0]
                 if trig:
                     # (with a negative size limit the event itself never reaches the qualifier: its internal-error
                     #  fallback is the trigger)
@@ -220,7 +223,13 @@ def run_trace(ctx, impl, cfg, ops, name="t", judge=True):
                 bad("oracle/format-raises", "format_message raised %r on event %r (%s)" % (e, v, where))
                 return
             cid = v[1]
-            if nat.get(cid) == "posargs":
+            if nat.get(cid) == "raw":
+                # last-resort record (4e65961): containers are replaced, the scalar fields must survive
+                for fld in ("message", "format"):
+                    if isinstance(orig.get(fld), str) and d.get(fld) != orig.get(fld):
+                        bad("oracle/readback-differs", "%s: last-resort record of event %r has %s=%r, emitted %r"
+                            % (where, v, fld, d.get(fld), orig.get(fld)))
+            elif nat.get(cid) == "posargs":
                 if t1 != t0:
                     bad("oracle/readback-posargs-render-differs", "%s: event %r logged with positional arguments renders %r after "
                         "read-back, %r when emitted (the args tuple comes back as a list)" % (where, v, t1, t0))
@@ -497,7 +506,7 @@ def hostile_calls(ctx, impl):
         leaves = impl.LEAVES_OK + impl.LEAVES_ODD + impl.LEAVES_BAD
         calls = []
         for leaf in leaves:
-            for shape in ["plain", "format", "format-missing", "message-kw", "posargs"]:
+            for shape in ["plain", "format", "format-missing", "message-kw", "posargs", "posargs2"]:
                 for lvl in (20, 30):
                     calls.append(["msg", None, cid % 5 if cid % 5 != 1 else 0, lvl, leaf, shape, cid])
                     cid += 1
